@@ -182,6 +182,26 @@ def check(run):
         noisy, exact = rounding_noise_symmetric(rng, nb if t is None else t.shape[0], diagonal=(n % 2 == 0))
         npos = np.array([[0.5, -0.25, 1.0], [-1.0, 0.75, 0.25]])
         one_case(run, specs, noisy, np.array([[0.1, 0.2, 0.3], [1.5, -1.0, 0.5]]), npos, np.array([1.0, 6.0]), 0.0, t, "gamma symmetric up to rounding")
+    # diffuse shells 27 - 35 bohr apart (exp(-R^2) underflows, the product factor exp(-mu R^2) does not), with points and nuclei in
+    # between; density matrices of small magnitude (the electronic term is linear in the density matrix)
+    from checks.common import far_diffuse_pair
+    for n, R_ in enumerate((27.5, 31.0) if quick else (26.8, 27.5, 29.0, 31.0, 35.0)):
+        specs = far_diffuse_pair(rng, n % 2, 0, R_)
+        nb = sum(s_.size for s_ in specs)
+        ca, cb = np.array(specs[0].center), np.array(specs[1].center)
+        pts = np.array([0.5 * (ca + cb), 0.3 * ca + 0.7 * cb + 0.25, ca + 0.5])
+        npos = np.array([ca, cb])
+        gamma = random_symmetric(rng, nb, psd=False)
+        gamma[:specs[0].size, specs[0].size:] *= 1e4         # the far pair carries the electronic term
+        gamma[specs[0].size:, :specs[0].size] *= 1e4
+        one_case(run, specs, gamma, pts, npos, np.array([1.0, -1.0]), 0.0, None, "diffuse shells far apart")
+    for n, scale in enumerate((1e-9, 1e-12) if quick else (1e-9, 1e-12, 1e-10, 1e-15)):
+        specs = random_basis(rng, 1, 2, lmax=2, exp_hi=20.0, nprim=None)
+        nb = sum(s.size for s in specs)
+        t = random_transform(rng, nb, rect=True) if n % 2 else None
+        gamma = random_symmetric(rng, nb if t is None else t.shape[0], psd=False) * scale
+        npos = np.array([[0.5, -0.25, 1.0], [-1.0, 0.75, 0.25]])
+        one_case(run, specs, gamma, np.array([[0.1, 0.2, 0.3], [1.5, -1.0, 0.5]]), npos, np.array([1.0, 6.0]) * scale, 0.0, t, "gamma of small magnitude")
     from checks import c09 as _c09
     _c09.positional_arguments_case(run, rng, only=('electrostatic',))
     representation_cases(run)
